@@ -1,51 +1,130 @@
 // Instrumented-lockedfile driver (compiled by shimkit against a scratch copy of go-internal in
-// which lockedfile and lockedfile/internal/filelock use vshim).  One scenario per stdin line:
+// which lockedfile and lockedfile/internal/filelock use vshim).  One request per stdin line:
 //
-//	run <dir> <clients: '|'-separated; each a ';'-separated list of ops> <seed|c:choices> [fault:<osIndex>:<kind>[:k]]
+//	run <dir> <clients> <sched> [init:<hex>] [fault:<osIndex>:<fail|short|eintr|crashbefore|crashafter>[:k]]...
+//	dfs <dir> <clients> <preemption bound> <max schedules> [init:<hex>] [fault:...]
 //
-// ops: r (Read), w<hex> (Write), t<hex> (Transform: replace contents by hex), a<hex> (Transform: append hex),
-// m (Mutex.Lock; unlock), each on the single file <dir>/f (mutex on <dir>/m).
-// Output per scenario: `TRACE ev|ev|… END done|deadlock|aborted`.
+// <clients>: '|'-separated clients (each a simulated process with one task), each a ';'-separated
+// list of operations on the files <dir>/f (lower case) or <dir>/g (upper case):
+//
+//	r | R                 lockedfile.Read
+//	w<hex> | W<hex>       lockedfile.Write
+//	t<hex> | T<hex>       lockedfile.Transform replacing the contents by <hex>
+//	a<hex> | A<hex>       lockedfile.Transform appending <hex>
+//	x | X                 lockedfile.Transform whose function returns an error
+//	m<k>                  the shared lockedfile.Mutex number k (all on <dir>/m): Lock, critical section, unlock
+//	o<flag>:<acts> | O…   lockedfile.OpenFile with the numeric flag, user I/O, Close
+//	c:<acts> e:<acts> n:<acts> | C E N   lockedfile.Create / Edit / Open, user I/O, Close
+//	   acts (','-separated): r<n> read n bytes, w<hex> write, p<hex>@<off> WriteAt, z<n> Truncate(n), s Stat
+//
+// <sched>: a seed (uniform choice among the enabled tasks), `s:<seed>:<pct>` (keep running the
+// current task with probability pct%), or `c:<k>,<k>,…` (choice list: one entry per scheduling
+// point with more than one enabled task; beyond the list: keep running the current task).
+//
+// Output per execution:  TRACE ev|ev|… END done|deadlock|aborted FINAL <hex of f> SCHED c:<choices>
+// (`dfs` prints one line per explored schedule, then `DFSEND <count> <exhausted|truncated>`).
+// Events are vshim events; the driver adds `call …` / `ret …` / `critical` events around the
+// public operations, and maps OS error strings to short names.
 package main
 
 import (
 	"bufio"
 	"bytes"
 	"encoding/hex"
+	"errors"
 	"fmt"
 	"math/rand"
 	"os"
 	"path/filepath"
 	"strconv"
 	"strings"
+	"syscall"
 
 	"github.com/rogpeppe/go-internal/lockedfile"
 	"github.com/rogpeppe/go-internal/vshim"
 )
 
-func chooser(spec string) func(step int, enabled []int, s *vshim.Sched) int {
-	if strings.HasPrefix(spec, "c:") {
-		var choices []int
+// ---- choices
+
+type choicePoint struct {
+	n, chosen, def int
+	costly         bool
+	preBefore      int
+}
+
+type chooser struct {
+	prefix  []int
+	rnd     *rand.Rand
+	sticky  int
+	cps     []choicePoint
+	preempt int
+	last    int
+}
+
+func (c *chooser) onSched(s *vshim.Sched, alive, enabled []int) {
+	if len(enabled) == 1 {
+		c.last = enabled[0]
+	}
+}
+
+func (c *chooser) choose(step int, enabled []int, s *vshim.Sched) int {
+	n := len(enabled)
+	def, costly := 0, false
+	for i, id := range enabled {
+		if id == c.last {
+			def, costly = i, true
+		}
+	}
+	k := def
+	switch {
+	case len(c.cps) < len(c.prefix):
+		k = c.prefix[len(c.cps)] % n
+	case c.rnd != nil:
+		if !(costly && c.rnd.Intn(100) < c.sticky) {
+			k = c.rnd.Intn(n)
+		}
+	}
+	c.cps = append(c.cps, choicePoint{n, k, def, costly, c.preempt})
+	if costly && k != def {
+		c.preempt++
+	}
+	c.last = enabled[k]
+	return k
+}
+
+func (c *chooser) taken() string {
+	parts := make([]string, len(c.cps))
+	for i, cp := range c.cps {
+		parts[i] = strconv.Itoa(cp.chosen)
+	}
+	return "c:" + strings.Join(parts, ",")
+}
+
+func parseSched(spec string) *chooser {
+	c := &chooser{last: -1}
+	switch {
+	case strings.HasPrefix(spec, "c:"):
 		for _, f := range strings.Split(spec[2:], ",") {
 			if f != "" {
 				v, _ := strconv.Atoi(f)
-				choices = append(choices, v)
+				c.prefix = append(c.prefix, v)
 			}
 		}
-		i := 0
-		return func(step int, enabled []int, s *vshim.Sched) int {
-			if i < len(choices) {
-				c := choices[i] % len(enabled)
-				i++
-				return c
-			}
-			return 0
+	case strings.HasPrefix(spec, "s:"):
+		p := strings.Split(spec, ":")
+		seed, _ := strconv.ParseInt(p[1], 10, 64)
+		c.rnd = rand.New(rand.NewSource(seed))
+		if len(p) > 2 {
+			c.sticky, _ = strconv.Atoi(p[2])
 		}
+	default:
+		seed, _ := strconv.ParseInt(spec, 10, 64)
+		c.rnd = rand.New(rand.NewSource(seed))
 	}
-	seed, _ := strconv.ParseInt(spec, 10, 64)
-	r := rand.New(rand.NewSource(seed))
-	return func(step int, enabled []int, s *vshim.Sched) int { return r.Intn(len(enabled)) }
+	return c
 }
+
+// ---- helpers
 
 func unhex(s string) []byte {
 	if s == "-" || s == "" {
@@ -69,75 +148,220 @@ func errStr(err error) string {
 	return "err"
 }
 
-func run(f []string) string {
-	dir := f[1]
-	os.MkdirAll(dir, 0o777)
-	file := filepath.Join(dir, "f")
-	vshim.PathName = func(p string) string { return strings.TrimPrefix(p, dir+"/") }
-	s := vshim.NewSched()
-	s.Choose = chooser(f[3])
-	s.MaxSteps = 50000
-	for _, x := range f[4:] {
-		if strings.HasPrefix(x, "fault:") {
+// canon maps OS error strings (which contain temp paths) to short stable names.
+func canon(op, res string) string {
+	if strings.HasPrefix(res, "short:") && op != "write" && op != "pwrite" {
+		// a "short write" fault that hit another kind of call: the call ran normally
+		res = res[6:]
+	}
+	if res == "kernel-disagrees:bad file descriptor" {
+		// flock(2) refuses descriptors opened with access mode 3 (neither readable nor writable)
+		return "ebadf"
+	}
+	if !strings.HasPrefix(res, "err:") {
+		return res
+	}
+	switch {
+	case strings.Contains(res, "bad file descriptor"):
+		return "ebadf"
+	case strings.Contains(res, "invalid argument"):
+		return "einval"
+	case strings.Contains(res, "interrupted system call"):
+		return "eintr"
+	case strings.Contains(res, "O_APPEND"):
+		return "eappend"
+	case strings.Contains(res, "file already closed"):
+		return "eclosed"
+	}
+	return strings.ReplaceAll(strings.ReplaceAll(res, " ", "_"), "|", "/")
+}
+
+type faultSpec struct {
+	idx  int
+	kind vshim.FaultKind
+	k    int
+}
+
+type scenario struct {
+	dir     string
+	clients string
+	init    *[]byte
+	faults  []faultSpec
+}
+
+func parseOpts(sc *scenario, opts []string) {
+	for _, x := range opts {
+		switch {
+		case strings.HasPrefix(x, "init:"):
+			b := unhex(x[5:])
+			if b == nil {
+				b = []byte{}
+			}
+			sc.init = &b
+		case strings.HasPrefix(x, "fault:"):
 			p := strings.Split(x, ":")
 			idx, _ := strconv.Atoi(p[1])
-			kind := map[string]vshim.FaultKind{"fail": vshim.FFail, "short": vshim.FShort, "crashbefore": vshim.FCrashBefore, "crashafter": vshim.FCrashAfter}[p[2]]
+			kind := map[string]vshim.FaultKind{"fail": vshim.FFail, "short": vshim.FShort, "eintr": vshim.FErrno,
+				"crashbefore": vshim.FCrashBefore, "crashafter": vshim.FCrashAfter}[p[2]]
 			k := 0
 			if len(p) > 3 {
 				k, _ = strconv.Atoi(p[3])
 			}
-			s.FaultAt = func(i int, e *vshim.Event) vshim.Fault {
-				if i == idx {
-					return vshim.Fault{Kind: kind, K: k}
-				}
-				return vshim.Fault{}
-			}
+			sc.faults = append(sc.faults, faultSpec{idx, kind, k})
 		}
 	}
-	for ci, c := range strings.Split(f[2], "|") {
+}
+
+func userActs(f *lockedfile.File, acts string) {
+	for _, a := range strings.Split(acts, ",") {
+		if a == "" {
+			continue
+		}
+		vshim.Note("call", "user", a)
+		switch a[0] {
+		case 'r':
+			n, _ := strconv.Atoi(a[1:])
+			f.Read(make([]byte, n))
+		case 'w':
+			f.Write(unhex(a[1:]))
+		case 'p':
+			at := strings.Index(a, "@")
+			off, _ := strconv.ParseInt(a[at+1:], 10, 64)
+			f.WriteAt(unhex(a[1:at]), off)
+		case 'z':
+			n, _ := strconv.ParseInt(a[1:], 10, 64)
+			f.Truncate(n)
+		case 's':
+			f.Stat()
+		}
+		vshim.Note("ret", "user")
+	}
+}
+
+func lower(c byte) byte {
+	if c >= 'A' && c <= 'Z' {
+		return c + 32
+	}
+	return c
+}
+
+func execute(sc *scenario, ch *chooser) string {
+	dir := sc.dir
+	os.RemoveAll(dir)
+	os.MkdirAll(dir, 0o777)
+	if sc.init != nil {
+		os.WriteFile(filepath.Join(dir, "f"), *sc.init, 0o666)
+	}
+	vshim.PathName = func(p string) string { return strings.TrimPrefix(p, dir+"/") }
+	s := vshim.NewSched()
+	s.Choose = ch.choose
+	s.OnSched = ch.onSched
+	s.MaxSteps = 50000
+	if len(sc.faults) > 0 {
+		s.FaultAt = func(i int, e *vshim.Event) vshim.Fault {
+			for _, f := range sc.faults {
+				if f.idx == i {
+					return vshim.Fault{Kind: f.kind, K: f.k, Err: syscall.EINTR}
+				}
+			}
+			return vshim.Fault{}
+		}
+	}
+	mutexes := map[string]*lockedfile.Mutex{}
+	mutexOf := func(k string) *lockedfile.Mutex {
+		if mutexes[k] == nil {
+			mutexes[k] = lockedfile.MutexAt(filepath.Join(dir, "m"))
+		}
+		return mutexes[k]
+	}
+	for ci, c := range strings.Split(sc.clients, "|") {
 		ops := strings.Split(c, ";")
 		s.SpawnProc(ci, func() {
 			for _, op := range ops {
 				if op == "" {
 					continue
 				}
-				switch op[0] {
+				name := "f"
+				if op[0] >= 'A' && op[0] <= 'Z' {
+					name = "g"
+				}
+				file := filepath.Join(dir, name)
+				arg := op[1:]
+				switch lower(op[0]) {
 				case 'r':
-					vshim.Note("call", "read")
+					vshim.Note("call", "read", name)
 					b, err := lockedfile.Read(file)
 					vshim.Note("ret", "read", errStr(err), hx(b))
 				case 'w':
-					vshim.Note("call", "write", op[1:])
-					err := lockedfile.Write(file, bytes.NewReader(unhex(op[1:])), 0o666)
+					vshim.Note("call", "write", name, hx(unhex(arg)))
+					err := lockedfile.Write(file, bytes.NewReader(unhex(arg)), 0o666)
 					vshim.Note("ret", "write", errStr(err))
-				case 't', 'a':
-					vshim.Note("call", "transform", op)
+				case 't', 'a', 'x':
+					kind := string(lower(op[0]))
+					vshim.Note("call", "transform", name, kind+hx(unhex(arg)))
 					var seen []byte
 					err := lockedfile.Transform(file, func(old []byte) ([]byte, error) {
 						seen = append([]byte{}, old...)
-						if op[0] == 'a' {
-							return append(append([]byte{}, old...), unhex(op[1:])...), nil
+						switch kind {
+						case "a":
+							return append(append([]byte{}, old...), unhex(arg)...), nil
+						case "x":
+							return nil, errors.New("transform function failed")
 						}
-						return unhex(op[1:]), nil
+						return unhex(arg), nil
 					})
 					vshim.Note("ret", "transform", errStr(err), hx(seen))
 				case 'm':
-					vshim.Note("call", "mutex")
-					mu := lockedfile.MutexAt(filepath.Join(dir, "m"))
-					unlock, err := mu.Lock()
-					vshim.Note("locked", "mutex", errStr(err))
+					vshim.Note("call", "mlock", arg)
+					unlock, err := mutexOf(arg).Lock()
+					vshim.Note("ret", "mlock", errStr(err))
 					if err == nil {
 						vshim.Step("critical")
+						vshim.Note("call", "munlock")
 						unlock()
+						vshim.Note("ret", "munlock")
 					}
-					vshim.Note("ret", "mutex")
+				case 'o', 'c', 'e', 'n':
+					var f *lockedfile.File
+					var err error
+					acts := ""
+					if i := strings.Index(arg, ":"); i >= 0 {
+						acts = arg[i+1:]
+						arg = arg[:i]
+					}
+					switch lower(op[0]) {
+					case 'o':
+						flag, _ := strconv.Atoi(arg)
+						vshim.Note("call", "openfile", name, strconv.Itoa(flag))
+						f, err = lockedfile.OpenFile(file, flag, 0o666)
+					case 'c':
+						vshim.Note("call", "create", name)
+						f, err = lockedfile.Create(file)
+					case 'e':
+						vshim.Note("call", "edit", name)
+						f, err = lockedfile.Edit(file)
+					case 'n':
+						vshim.Note("call", "open", name)
+						f, err = lockedfile.Open(file)
+					}
+					vshim.Note("ret", "openfile", errStr(err))
+					if err == nil {
+						userActs(f, acts)
+						vshim.Note("call", "close")
+						err = f.Close()
+						vshim.Note("ret", "close", errStr(err))
+					}
 				}
 			}
 		})
 	}
 	s.Run()
-	var ev []string
+	ev := make([]string, 0, len(s.Trace))
 	for _, e := range s.Trace {
+		if e.Op == "start" || e.Op == "exit" {
+			continue
+		}
+		e.Res = canon(e.Op, e.Res)
 		ev = append(ev, e.String())
 	}
 	end := "done"
@@ -146,8 +370,61 @@ func run(f []string) string {
 	} else if s.Aborted {
 		end = "aborted"
 	}
-	final, _ := os.ReadFile(file)
-	return "TRACE " + strings.Join(ev, "|") + " END " + end + " FINAL " + hx(final)
+	final := "none"
+	if b, err := os.ReadFile(filepath.Join(dir, "f")); err == nil {
+		final = hx(b)
+	}
+	return "TRACE " + strings.Join(ev, "|") + " END " + end + " FINAL " + final + " SCHED " + ch.taken()
+}
+
+// dfs explores the schedules of a scenario depth first with a preemption bound.
+func dfs(sc *scenario, bound, max int, out *bufio.Writer) {
+	var prefix []int
+	count := 0
+	for {
+		ch := &chooser{prefix: prefix, last: -1}
+		fmt.Fprintln(out, execute(sc, ch))
+		count++
+		if count >= max {
+			fmt.Fprintf(out, "DFSEND %d truncated\n", count)
+			return
+		}
+		next := []int(nil)
+		for i := len(ch.cps) - 1; i >= 0 && next == nil; i-- {
+			cp := ch.cps[i]
+			// order of alternatives: def first, then the others ascending
+			ord := []int{cp.def}
+			for j := 0; j < cp.n; j++ {
+				if j != cp.def {
+					ord = append(ord, j)
+				}
+			}
+			pos := 0
+			for j, v := range ord {
+				if v == cp.chosen {
+					pos = j
+				}
+			}
+			if pos+1 < cp.n {
+				alt := ord[pos+1]
+				cost := cp.preBefore
+				if cp.costly && alt != cp.def {
+					cost++
+				}
+				if cost <= bound {
+					for _, q := range ch.cps[:i] {
+						next = append(next, q.chosen)
+					}
+					next = append(next, alt)
+				}
+			}
+		}
+		if next == nil {
+			fmt.Fprintf(out, "DFSEND %d exhausted\n", count)
+			return
+		}
+		prefix = next
+	}
 }
 
 func main() {
@@ -157,9 +434,18 @@ func main() {
 	defer out.Flush()
 	for in.Scan() {
 		f := strings.Fields(in.Text())
-		if len(f) >= 4 && f[0] == "run" {
-			fmt.Fprintln(out, run(f))
-		} else {
+		switch {
+		case len(f) >= 4 && f[0] == "run":
+			sc := &scenario{dir: f[1], clients: f[2]}
+			parseOpts(sc, f[4:])
+			fmt.Fprintln(out, execute(sc, parseSched(f[3])))
+		case len(f) >= 5 && f[0] == "dfs":
+			sc := &scenario{dir: f[1], clients: f[2]}
+			bound, _ := strconv.Atoi(f[3])
+			max, _ := strconv.Atoi(f[4])
+			parseOpts(sc, f[5:])
+			dfs(sc, bound, max, out)
+		default:
 			fmt.Fprintln(out, "bad-scenario")
 		}
 		out.Flush()
